@@ -300,6 +300,9 @@ func GenerateScript(seed uint64, prop, tier string, env *Env) *Script {
 		s.Config.Genesis.ExtraDenoms = append(s.Config.Genesis.ExtraDenoms, SoleDenom)
 		g.sole = true
 	}
+	if (prop == "C07" || prop == "C17") && rng.Chance(0.2) {
+		s.Config.Genesis.BurnFunded = true // coins wait at the burn address from the first block on
+	}
 	if rng.Chance(0.5) {
 		s.Config.LegacyVersionMap = true
 	}
@@ -524,6 +527,10 @@ func (g *Gen) emit(t *TxSpec) int {
 	case 4:
 		if g.hasAtom { // a fee declared in two denominations
 			t.Fee2Den, t.Fee2Amt = "uatom", "50"
+		}
+	case 5:
+		if g.whale && g.rng.Chance(0.5) { // a declared fee at and beyond the int64 / uint64 boundaries (every account can afford it)
+			t.FeeDen, t.FeeAmt = WhaleDenom, []string{"9223372036854775807", "9223372036854775808", "18446744073709551615", "18446744073709551616"}[g.rng.Intn(4)]
 		}
 	}
 	if t.Timeout == 0 && t.ReplayOf == 0 && g.rng.Chance(0.03) {
@@ -1433,7 +1440,15 @@ func (g *Gen) famDidAdv() {
 	case 15: // C11 near-miss: the did field is a case variant of the document id (base58 is case-sensitive: a different DID)
 		odid := g.env.Dids[other]
 		doc := g.didDoc(odid, []int{other}, 0)
-		g.tx(MsgSpec{T: "did.Create", F: map[string]string{"did": caseVariant(odid, r), "from": from}, Doc: doc, Proof: &ProofSpec{Key: other, MethodID: fmt.Sprintf("%s#key%d", odid, other), Seq: "0"}})
+		field := caseVariant(odid, r)
+		if r.Chance(0.5) {
+			// ... or a DID URL of it (the identifier followed by a fragment, a path or a query): not an identifier at all
+			field = odid + []string{"#key1", "#", "/path", "?service=x", "#key" + fmt.Sprint(other), ";v=1"}[r.Intn(6)]
+		}
+		g.tx(MsgSpec{T: "did.Create", F: map[string]string{"did": field, "from": from}, Doc: doc, Proof: &ProofSpec{Key: other, MethodID: fmt.Sprintf("%s#key%d", odid, other), Seq: "0"}})
+		if r.Chance(0.4) {
+			g.tx(MsgSpec{T: "did.Update", F: map[string]string{"did": field, "from": from}, Doc: doc, Proof: &ProofSpec{Key: other, MethodID: fmt.Sprintf("%s#key%d", odid, other), Seq: "0", SeqOfDID: odid}})
+		}
 	case 16: // C11 near-miss: update of an existing DID with a document about its case variant
 		doc := g.didDoc(caseVariant(did, r), []int{k}, 0)
 		upd(&ProofSpec{Key: k, MethodID: mid, Seq: "cur"}, doc)
@@ -1470,6 +1485,22 @@ func (g *Gen) famDidAdv() {
 		}
 		upd(&ProofSpec{Key: other, MethodID: fmt.Sprintf("%s#key%d", did, other), Seq: "cur"}, g.didDoc(did, []int{other}, 0))
 	case 4: // non-secp256k1 key listed under authentication
+		if r.Chance(0.4) {
+			// ... as the ONLY authentication method: the owner moves authentication to a key type nothing here can verify and keeps
+			// the old secp256k1 key for assertions. From then on nobody can prove control - certainly not the old key.
+			ex := did + "#ed-only"
+			doc := &DocSpec{Id: did,
+				VMs:       []VMSpec{{Id: mid, Type: "EcdsaSecp256k1VerificationKey2019", Controller: did, Key: k}, {Id: ex, Type: "Ed25519VerificationKey2018", Controller: did, Key: other}},
+				Assertion: []RelSpec{{Ref: mid}}, Auth: []RelSpec{{Ref: ex}}}
+			id := g.tx(MsgSpec{T: "did.Update", F: map[string]string{"did": did, "from": from}, Doc: doc, Proof: &ProofSpec{Key: k, MethodID: mid, Seq: "cur"}})
+			g.didTx = append(g.didTx, didRef{id, did})
+			if r.Chance(0.6) {
+				upd(&ProofSpec{Key: k, MethodID: mid, Seq: "cur"}, g.didDoc(did, []int{k}, 0))
+			} else {
+				g.tx(MsgSpec{T: "did.Deactivate", F: map[string]string{"did": did, "from": from}, Proof: &ProofSpec{Key: k, MethodID: mid, Seq: "cur"}})
+			}
+			return
+		}
 		e := g.plan.Did[did]
 		for _, vm := range e.Doc.VerificationMethods {
 			if strings.Contains(vm.Id, "#ed") {
@@ -1680,13 +1711,22 @@ func (g *Gen) famPnft() {
 		if r.Chance(0.25) {
 			data = `{"issuer":"` + g.addr(r.Intn(6)) + `"}` // free-form data may mention anybody
 		}
-		g.tx(M("pnft.CreateDenom", "id", g.idFrom(denomPool, adv), "name", "name", "symbol", "SYM", "desc", "d", "uri", "u", "uri_hash", "h", "data", data, "creator", creator))
+		nm, sy := "name", "SYM"
+		if r.Chance(0.08) {
+			// names and symbols need only be non-empty: blanks, a tab, a no-break space are names too
+			nm, sy = []string{" ", "\t", "  ", "\u00a0", "name"}[r.Intn(5)], []string{" ", "\t", "SYM", "\n"}[r.Intn(4)]
+		}
+		g.tx(M("pnft.CreateDenom", "id", g.idFrom(denomPool, adv), "name", nm, "symbol", sy, "desc", "d", "uri", "u", "uri_hash", "h", "data", data, "creator", creator))
 	default:
 		d := dens[r.Intn(len(dens))]
 		owner := g.plan.Denoms[d].Owner
 		switch r.Pick([]int{8, 2, 1, 2, 5, 3}) {
 		case 0:
-			g.tx(M("pnft.Mint", "denom", d, "id", g.idFrom(tokenPool, adv), "name", "tok", "desc", "dd", "uri", "uri", "uri_hash", "hh", "data", "data", "creator", owner))
+			tn := "tok"
+			if r.Chance(0.08) {
+				tn = []string{" ", "\t", "  ", "\u00a0"}[r.Intn(4)]
+			}
+			g.tx(M("pnft.Mint", "denom", d, "id", g.idFrom(tokenPool, adv), "name", tn, "desc", "dd", "uri", "uri", "uri_hash", "hh", "data", "data", "creator", owner))
 		case 1:
 			g.tx(M("pnft.UpdateDenom", "id", d, "name", []string{"", "n2"}[r.Intn(2)], "symbol", []string{"", "S2"}[r.Intn(2)], "desc", "newdesc", "updater", owner))
 		case 2:
